@@ -9,8 +9,8 @@ import vlib
 from gen import canon as G
 
 ID = "C18"
-PROPS = ["IsoVerif/Props/C18.lean", "IsoVerif/Props/C18Strand.lean"]
-TARGETS = ["IsoVerif.Props.C18", "IsoVerif.Props.C18Strand"]
+PROPS = ["IsoVerif/Props/C18.lean", "IsoVerif/Props/C18Strand.lean", "IsoVerif/Props/C18Window.lean"]
+TARGETS = ["IsoVerif.Props.C18", "IsoVerif.Props.C18Strand", "IsoVerif.Props.C18Window"]
 GEN_DEPS = ["Constants"]
 LEVEL = "proof"
 RULE = ("in-process: random reference sequences over {A,C,G,T,N} in mixed case with planted GT-AG/GC-AG/AT-AC/CT-AC/CT-GC/GT-AT "
@@ -286,14 +286,52 @@ def dedupe_first(entries, keylen):
     return sorted(out, key=lambda e: json.dumps(e[:keylen]))
 
 
+_RA_TEMPLATE = {}
+
+
+def _mk_read_assignment(i, exons, cexons):
+    """a real ReadAssignment (built the way the C15 harness builds them) with the given raw / corrected exon lists"""
+    from props import C15
+    from gen import serial as GS
+    if not _RA_TEMPLATE:
+        E = C15.enums()
+        _RA_TEMPLATE.update(GS.rand_ra(random.Random(5), E))
+        _RA_TEMPLATE.update(matches=[], info=[], attrs=[], eprof=[], iprof=[], polya=[-1, -1, -1, -1], region=[1, 2], mapq=60,
+                            group=GS.cps("NA"), chr=GS.cps("chr1"), strand=GS.cps("+"), mstrand=GS.cps("+"),
+                            atype=E["ReadAssignmentType"][0], gtype=E["ReadAssignmentType"][0])
+    j = dict(_RA_TEMPLATE, id=i + 1, read_id=GS.cps("r%d" % i), exons=[list(e) for e in exons], cexons=[list(e) for e in cexons])
+    j["cintrons"] = [[cexons[k][1] + 1, cexons[k + 1][0] - 1] for k in range(len(cexons) - 1)]
+    return C15.mk_ra(j)
+
+
 def _gene_ref_via_loader(M, kw):
     """the `gene_info` exactly as the model-construction pass gets it: a GENE_INFO record written with
-    GeneInfo.serialize, read back by the real NormalTmpFileAssignmentLoader.get_object (which loads the reference window)"""
+    GeneInfo.serialize, read back by the real NormalTmpFileAssignmentLoader.get_object (which loads the reference window).
+    With `kept` (the read assignments saved under that gene info): the records are written by the real
+    TmpFileAssignmentPrinter and the gene info is the one the real ReadAssignmentLoader.get_next hands on
+    (which widens the window over the reads it keeps)"""
     import tempfile
     import src.serialization as S
     d = tempfile.mkdtemp(prefix="isoverif_C18ld_")
     try:
         path = os.path.join(d, "dump")
+        if "kept" in kw:
+            import src.dataset_processor as DP
+            pr = M.AIO.TmpFileAssignmentPrinter(path, types.SimpleNamespace())
+            pr.add_gene_info(M.GI.GeneInfo.from_region("chr1", kw["start"], kw["end"]))
+            for i, r in enumerate(kw["kept"]):
+                pr.add_read_info(_mk_read_assignment(i, r["exons"], r["cexons"]))
+            del pr                                      # writes the terminator and closes the dump
+            lg = DP.logger
+            prev = lg.level
+            lg.setLevel(100)
+            try:
+                ld = DP.ReadAssignmentLoader(path, None, kw["chrom"], None)
+                gi, storage = ld.get_next()
+            finally:
+                lg.setLevel(prev)
+            assert len(storage) == len(kw["kept"])
+            return gi
         with open(path, "wb") as f:
             S.write_short_int(M.AIO.TmpFileAssignmentPrinter.GENE_INFO, f)
             M.GI.GeneInfo.from_region("chr1", kw["start"], kw["end"]).serialize(f)
@@ -645,6 +683,40 @@ def gen_cases(ctx, rng=None):
         if rng.random() < 0.6 and start >= 0:
             mk["via"] = "loader"
         cases.append(("model_info", mk))
+    # the second pass: the saved gene info carries the GENE span, the reads of the region may reach beyond it on either
+    # side (novel upstream / downstream exons); the gene info comes from the real ReadAssignmentLoader.get_next
+    for _ in range(300 if quick else 3000):
+        n = rng.choice([60, 90, 140])
+        chrom, introns = G.planted_sequence(rng, n=n, start=1)
+        hs = rng.randint(1, n // 2)
+        he = rng.randint(hs + 5, n)
+        reads = []
+        for _k in range(rng.randint(0, 4)):
+            a = rng.randint(1, n - 12)
+            b = rng.randint(a + 8, n)
+            inside = sorted(it for it in set(introns) if a < it[0] and it[1] < b and it[0] <= it[1])
+            chain = []
+            for it in inside:
+                if rng.random() < 0.6 and (not chain or chain[-1][1] + 1 < it[0]):
+                    chain.append(it)
+            bounds = [a] + [x for it in chain for x in (it[0] - 1, it[1] + 1)] + [b]
+            ex = [[bounds[i], bounds[i + 1]] for i in range(0, len(bounds), 2)]
+            cex = ex if rng.random() < 0.6 else [list(e) for e in ex]
+            if cex is not ex and rng.random() < 0.7:
+                cex[0][0] = max(1, cex[0][0] - rng.randint(0, 6))          # a corrected end reaching further out
+                cex[-1][1] = min(n, cex[-1][1] + rng.randint(0, 6))
+            reads.append({"exons": ex, "cexons": cex})
+        base = {"chrom": chrom, "start": hs, "end": he, "via": "loader", "kept": reads}
+        qs = []
+        for r in reads:
+            for ex in (r["exons"], r["cexons"]):
+                its = [[ex[i][1] + 1, ex[i + 1][0] - 1] for i in range(len(ex) - 1)]
+                if its:
+                    qs.append([its, rng.choice("+-")])
+        rng.shuffle(qs)
+        cases.append(("canon_history", dict(base, queries=qs[:6])))
+        cases.append(("model_info", dict(base, models=[{"exons": r["cexons"], "strand": rng.choice("+-"), "attr": None} for r in reads])))
+        cases.append(("model_info", dict(base, models=[{"exons": r["exons"], "strand": rng.choice("+-"), "attr": None} for r in reads])))
     # novel-transcript decisions on well-formed intron chains (sorted, disjoint, inside the sequence), enough reads
     for _ in range(600 if quick else 8000):
         seq, chain = novel_chain(rng)
@@ -795,7 +867,11 @@ def oracle_case(mode, kw):
         fails, _ = pipeline_case(kw)
         return (fails[0][0], fails[0][1]) if fails else None
     if mode in ("canon_history", "model_info", "read_fields"):
-        if "chrom" in kw:
+        if "chrom" in kw and "kept" in kw:
+            # second pass (gene info from ReadAssignmentLoader.get_next): the statement speaks about the reference FASTA,
+            # the loaded window is an implementation detail -> expected values come from the whole chromosome
+            seq, start = kw["chrom"], 1
+        elif "chrom" in kw:
             # a window asked to start at or before 0 (0-based start of a read cluster at the first base) begins at base 1
             start = max(1, kw["start"])
             seq = kw["chrom"][start - 1:max(kw["end"], 0)]
@@ -931,6 +1007,13 @@ WITNESSES = [
     ("model_info", {"chrom": "AAAAGTCCCCCCAGTTTT", "start": 0, "end": 16, "via": "loader",
                     "models": [{"exons": [[1, 4], [15, 16]], "strand": "+", "attr": None}]}),
     ("canon_history", {"seq": "AAAACTCCCCCCACTTTT", "start": 1, "queries": [[[[5, 14]], "."], [[[5, 14]], "+"], [[[5, 14]], "-"]]}),
+    # Props/C18Window gene_span_window_witness: gene annotated at 12..18, a read 1-4,15-18 starting before it; the saved
+    # header window does not contain the GT-AG intron (5,14) (before the fix: looked up at wrapped-around positions -> False)
+    ("canon_history", {"chrom": "AAAAGTCCCCCCAGTTTT", "start": 12, "end": 18, "via": "loader",
+                       "kept": [{"exons": [[1, 4], [15, 18]], "cexons": [[1, 4], [15, 18]]}], "queries": [[[[5, 14]], "+"]]}),
+    ("model_info", {"chrom": "AAAAGTCCCCCCAGTTTT", "start": 12, "end": 18, "via": "loader",
+                    "kept": [{"exons": [[1, 4], [15, 18]], "cexons": [[1, 4], [15, 18]]}],
+                    "models": [{"exons": [[1, 4], [15, 18]], "strand": "+", "attr": None}]}),
 ]
 
 
